@@ -148,6 +148,7 @@ def pool():
     add('bad-spec', data, lambda: {'k': 5})
     add('callable-raises', data, lambda: ('a.d', int))
     add('long-repr', lambda: {'k': list(range(200))}, lambda: 'k.300')
+    add('first-key-scope', lambda: [{'w': 1}, {'w': 5}], lambda: (Iter().first(lambda d: d['w'] > 2), 'w'))
     return P
 
 
@@ -353,6 +354,28 @@ def history(col, rng, P, baselines, length, contract):
             return
 
 
+def spec_glom_history(col, rng):
+    """the Spec.glom() entry point with varying scope= arguments on ONE Spec object: each outcome equals a fresh Spec's"""
+    mk = lambda: Spec({'unit': Coalesce(S.unit, default='n/a'), 'cur': Coalesce(S.cur, default='n/a'), 'v': 'v'}, scope={'cur': 'EUR'})
+    persistent = mk()
+    snap = snapshot(persistent)
+    for i in range(30):
+        kw = rng.choice([{}, {'scope': {'unit': 'kg'}}, {'scope': {'cur': 'USD'}}, {'scope': {'unit': 'g', 'cur': 'CHF'}}])
+        caller = dict(kw.get('scope', {}))
+        a = call(persistent.glom, {'v': i}, **({'scope': caller} if 'scope' in kw else {}))
+        b = call(mk().glom, {'v': i}, **({'scope': dict(kw['scope'])} if 'scope' in kw else {}))
+        col.case(('spec.glom-history', i % 4), i > 0)
+        col.count('calls_in_history')
+        if outcome_signature(a) != outcome_signature(b):
+            col.violation('C06/outcome-depends-on-history:Spec.glom', 'call #%d on a re-used Spec object with %r: %r ; a fresh Spec gives %r'
+                          % (i + 1, kw, a, b), None)
+            return
+        if caller != kw.get('scope', {}) or snapshot(persistent) != snap:
+            col.violation('C06/spec-modified:Spec.glom', 'Spec.glom(%r) modified %s' % (kw, 'the caller scope' if caller != kw.get('scope', {}) else 'the Spec object: ' + str(first_diff(snap, snapshot(persistent)))), None)
+            return
+        col.count('outcomes_equal_to_cold_baseline')
+
+
 def run(ctx):
     col, rng = ctx.col, ctx.rng
     P = pool()
@@ -370,6 +393,7 @@ def run(ctx):
     contract.install()
     saved_star = gcore.PATH_STAR
     try:
+        spec_glom_history(col, rng)
         for h in range(ctx.n(3, 4)):
             history(col, rng, P, baselines, ctx.n(500, 3000), contract)
         cache_invariants(col, rng, full=True)
